@@ -602,6 +602,35 @@ func (g *c21gen) next() c21op {
 			ss = append(ss, c21spec{mode: 'k', cols: g.someCols(cols, 1)})
 		}
 		n := r.Intn(3)
+		if r.Intn(2) == 0 {
+			// the usual "full definition" style: every existing index (with its foreign key) is
+			// restated, then something new (a column and/or indexes) is added
+			for _, sc := range g.schemas() {
+				if sc.Table != t {
+					continue
+				}
+				cols = g.colsOf(t)
+				if r.Intn(2) == 0 && !slices.Contains(cols, "e") {
+					cols = append(cols, "e")
+				}
+				ss = ss[:0]
+				for i := range sc.Indexes {
+					ix := &sc.Indexes[i]
+					sp := c21spec{mode: ix.Mode, cols: ix.Columns, fkTbl: ix.Fk.Table, fkMode: int(ix.Fk.Mode)}
+					if ix.Fk.Table != "" {
+						sp.fkCols = ix.Fk.Columns
+					}
+					ss = append(ss, sp)
+				}
+				ks = nil
+				for _, sp := range ss {
+					ks = append(ks, sp.cols)
+				}
+			}
+			if len(ss) == 0 {
+				ss = append(ss, c21spec{mode: 'k', cols: g.someCols(cols, 1)})
+			}
+		}
 		for i := 0; i < n; i++ {
 			ss = append(ss, g.randSpec(t, cols, append(ks, ss[0].cols), 50))
 		}
